@@ -122,11 +122,15 @@ fn inner_file_handler(
 
 fn blacklist_check(request: &Request, state: Arc<AppState>) -> Option<Response> {
     // Return error 403 if the address was blacklisted
-    if state
-        .config
-        .blacklist
-        .list
-        .contains(&request.address.origin_addr)
+    // (the origin address may come from `X-Forwarded-For`, so the proxy chain, whose last
+    // element is the connecting peer, is checked as well)
+    let blacklist = &state.config.blacklist.list;
+    if blacklist.contains(&request.address.origin_addr)
+        || request
+            .address
+            .proxies
+            .iter()
+            .any(|proxy| blacklist.contains(proxy))
     {
         state.logger.warn(format!(
             "{}: Blacklisted IP attempted to request {}",
